@@ -782,6 +782,10 @@ class Gen:
         return None
 
     def gen_script(self, size):
+        items = self.gen_items(size)
+        return '\n'.join(t for t, _ in items) + '\n', coq_list([c for _, c in items])
+
+    def gen_items(self, size):
         rng = self.rng
         items = []
         for _ in range(size):
@@ -795,7 +799,7 @@ class Gen:
                 st = self.gen_stmt(ALL_KINDS)
             if st is not None:
                 items.append(st)
-        return '\n'.join(t for t, _ in items) + '\n', coq_list([c for _, c in items])
+        return items
 
 
 ALL_KINDS = {'reg', 'set', 'power', 'assign', 'print', 'wait', 'time', 'units', 'get', 'printf', 'if', 'repeat',
